@@ -82,7 +82,7 @@ def replay(ctx, path):
 META = {
     "category": "proof",
     "technique": "Coq proof of the DMRG sweep/convergence control contract over a state-machine model + exact trace correspondence; dense eigvalsh falsifier",
-    "text": ("Proved for every N>=3 and every energy oracle: the DMRG sweep schedule (2N-4 two-site minimisations per sweep, "
+    "text": ("Proved for every N>=3 (and separately for the two-site corner case N=2) and every energy oracle: the DMRG sweep schedule (2N-4 two-site minimisations per sweep, "
              "bath stacks and orthogonality centre consistent, no assertion can fire), and the convergence contract "
              "(a time step completes only after a sweep whose final energy differs from the previous sweep's by less than "
              "the tolerance; otherwise RuntimeError once the sweep budget is exhausted), and their composition over a whole run: for every energy stream split into per-step plans the run never fails, makes (#sweeps)*(2N-4) progress() calls and records each time step exactly once, in order, at its end time, after that step's first converged sweep (the sweep counter and the reference energy are never reset between time steps -- stated as is). Tied to DMRGBackendImpl by the "
